@@ -334,7 +334,10 @@ func rulePatternsDecidedByMatcher(c *Check, rule string) {
 		return
 	}
 	fPat := fk("selection.Selector", "Patterns")
-	matchTrue := func(a engine.Atom) bool {
+	predSeen := map[*ssa.Function]bool{}
+	var cutRef func(b *ssa.BasicBlock, succ int) bool
+	var matchTrue func(a engine.Atom) bool
+	matchTrue = func(a engine.Atom) bool {
 		if a.Op != "true" {
 			return false
 		}
@@ -345,6 +348,22 @@ func rulePatternsDecidedByMatcher(c *Check, rule string) {
 		for _, cal := range c.G.CalleesOf(call) {
 			if cal == matches {
 				return true
+			}
+		}
+		// slices.ContainsFunc(patterns, func(p) bool { return p.Matches(l) }): true only when the predicate was
+		if n := engine.CalleeName(call); (n == "slices.ContainsFunc" || n == "slices.IndexFunc") && len(call.Call.Args) == 2 && a.Op == "true" {
+			var pred *ssa.Function
+			switch f := call.Call.Args[1].(type) {
+			case *ssa.MakeClosure:
+				pred, _ = f.Fn.(*ssa.Function)
+			case *ssa.Function:
+				pred = f
+			}
+			if pred != nil && len(pred.Blocks) > 0 && !predSeen[pred] {
+				predSeen[pred] = true
+				may := engine.MayReturnBool(pred, 0, true, engine.PathQuery{CutEdge: cutRef})
+				delete(predSeen, pred)
+				return !may
 			}
 		}
 		return false
@@ -361,6 +380,7 @@ func rulePatternsDecidedByMatcher(c *Check, rule string) {
 		return false
 	}
 	cut := engine.CutEdgesWhere(func(a engine.Atom) bool { return matchTrue(a) || noPatterns(a) })
+	cutRef = cut
 	n := 0
 	for _, fn := range c.P.Funcs {
 		if !engine.InPackage(fn, "selection") || fn.Parent() != nil || fn.Signature.Recv() == nil || engine.TypeKey(fn.Signature.Recv().Type()) != "selection.Selector" {
@@ -764,5 +784,78 @@ func ruleNoMemoOfPartialTraversal(c *Check, rule string, pkgs ...string) {
 	}
 	if n == 0 {
 		c.OK(rule, "no-memo-of-partial-traversal/none", "no function remembers a slice in a table it consults", "-")
+	}
+}
+
+// R06t (D29): a restore never goes through a symlink that sits at a file output's path. Hashing the path
+// follows the link (and compares the file it points to), creating it follows the link (and overwrites that
+// file): the restore has to look at the path itself first and clear whatever is not a regular file.
+func ruleFileRestoreLooksAtThePathItself(c *Check, rule string) {
+	c.Rule(rule, "in the restore of a file output, hashing the local path and creating it are reachable only past a call that inspects the path itself (os.Lstat) and removes what it finds when that is not a regular file: a symlink (or directory) at the output path is replaced, never read or written through", 2)
+	impls, _ := handlerFuncs(c, "Load")
+	hashers := hashComposing(c)
+	n := 0
+	for _, fn := range impls {
+		fname := c.P.FuncName(fn)
+		if !strings.Contains(fname, "FileOutputHandler") {
+			continue
+		}
+		region := regionOf(c, fn)
+		lst := map[*ssa.Function]bool{}
+		for _, s := range c.G.CallsTo("os.Lstat") {
+			lst[s.Parent()] = true
+		}
+		rem := map[*ssa.Function]bool{}
+		for _, s := range c.G.CallsTo("os.Remove", "os.RemoveAll") {
+			rem[s.Parent()] = true
+		}
+		// the inspection: an os.Lstat in a function that also removes, or a call that reaches both
+		inspect := map[ssa.Instruction]bool{}
+		for f := range region {
+			for _, s := range engine.SitesIn(f) {
+				if engine.CalleeName(s) == "os.Lstat" && rem[f] {
+					inspect[s] = true
+					continue
+				}
+				if len(sitesReaching1(c, s, lst)) > 0 && len(sitesReaching1(c, s, rem)) > 0 {
+					if cs, ok := s.(*ssa.Call); !ok || cs.Call.StaticCallee() == nil || !region[cs.Call.StaticCallee()] || cs.Call.StaticCallee() != fn {
+						inspect[s] = true
+					}
+				}
+			}
+		}
+		isInspect := func(in ssa.Instruction) bool { return inspect[in] }
+		var fns []*ssa.Function
+		for f := range region {
+			fns = append(fns, f)
+		}
+		sort.Slice(fns, func(i, j int) bool { return c.P.FuncName(fns[i]) < c.P.FuncName(fns[j]) })
+		for _, f := range fns {
+			for _, s := range engine.SitesIn(f) {
+				what := ""
+				switch engine.CalleeName(s) {
+				case "os.Create", "os.OpenFile", "os.WriteFile":
+					what = "create"
+				default:
+					if calleeInSet(c, s, hashers) {
+						if cs, ok := s.(*ssa.Call); ok && cs.Call.StaticCallee() != nil && region[cs.Call.StaticCallee()] {
+							continue // a region helper that hashes: its own site is judged
+						}
+						what = "local-hash"
+					}
+				}
+				if what == "" {
+					continue
+				}
+				n++
+				// a call that contains an inspection is not itself a cut for sites inside it: cut only the
+				// inspections proper (an Lstat next to a removal) while the search descends
+				reach, _ := engine.PathExists(fn, nil, engine.IsInstr(s), engine.PathQuery{CutInstr: isInspect, DeepTo: true})
+				c.Require(!reach, rule, "path-inspected-before-"+what+"/"+fname, "reachable only past the Lstat-and-clear of the output path", "the restore of a file output can "+map[string]string{"create": "create", "local-hash": "hash"}[what]+" the output path without having looked at the path itself (os.Lstat) and cleared a non-regular entry: when a symlink sits there the restore compares and overwrites the file the link points to — another file of the workspace is clobbered with the cached bytes and the output stays a symlink", c.P.InstrPos(s))
+			}
+		}
+	}
+	if n == 0 {
+		c.Unknown(rule, "path-inspected", "anchor-unresolved: the file output handler's Load neither hashes nor creates a path", "-")
 	}
 }
